@@ -130,19 +130,27 @@ def gen_case(rng, ens, tier):
     for _ in range(rng.randint(3, 9) if tier == "quick" else rng.randint(5, 20)):
         e = rng.choice(entries)
         trials.append({"name": e["name"], "truthy": [rng.random() < 0.7 for _ in e["users"]] or [True],
+                       "valuekind": rng.randrange(5),
                        "verdict": rng.random() < 0.6, "draws": [rng.randrange(1000) for _ in range(4)],
                        "scale": rng.choice([1, 1, 2]), "check": rng.random() < 0.85})
     case["trials"] = trials
+    # a user move added to the table AFTER the run has started (it must be notified like the others from then on)
+    case["late"] = None
+    if rng.random() < 0.4 and len(trials) >= 2:
+        case["late"] = {"after": rng.randrange(1, len(trials)), "name": "late", "user": nuser}
     return case
 
 
-def user_order(case):
-    """distinct user objects in the order the table is traversed (dict order, composites in member order)"""
+def user_order(case, k=None):
+    """distinct user objects in the order the table is traversed (dict order, composites in member order) at trial k"""
     seen = []
     for e in case["entries"]:
         for u in e["users"]:
             if u not in seen:
                 seen.append(u)
+    late = case.get("late")
+    if late and k is not None and k >= late["after"] and late["user"] not in seen:
+        seen.append(late["user"])
     return seen
 
 
@@ -189,7 +197,7 @@ class ProtocolSuite(common.Suite):
         mc._rng = rng
         mc.context.rng = rng
         log = []
-        nuser = 1 + max([u for e in case["entries"] for u in e["users"]] + [0])
+        nuser = 1 + max([u for e in case["entries"] for u in e["users"]] + [0]) + (1 if case.get("late") else 0)
         bare = [BareMove(u) for u in range(nuser)]
         users = [StrictMove(b, log) for b in bare]
         crits = {}
@@ -219,10 +227,18 @@ class ProtocolSuite(common.Suite):
             mc.validate_simulation()
         out = {"setup_log": [list(x) for x in log], "trials": []}
         del log[:]
-        for tr in case["trials"]:
+        for kt, tr in enumerate(case["trials"]):
+            late = case.get("late")
+            if late and kt == late["after"]:
+                cb = BareCriteria(900)
+                crits[late["name"]] = cb
+                mc.add_move(users[late["user"]], criteria=StrictCriteria(cb, log), name=late["name"])
             e = next(x for x in case["entries"] if x["name"] == tr["name"])
+            # the protocol says "truthy" / "falsy": not only the bool singletons
+            truthy_values = [True, 1, np.True_, "moved", [3]]
+            falsy_values = [False, 0, np.False_, "", None]
             for u, res in zip(e["users"], tr["truthy"]):
-                bare[u].result = res
+                bare[u].result = (truthy_values if res else falsy_values)[tr.get("valuekind", 0)]
             crits[tr["name"]].verdict = tr["verdict"]
             rng.draws = list(tr["draws"])
             streams.ops = [[tr["scale"]] * 3] if e["kind"] == "cell" else [[1, 0, 0]]
@@ -263,12 +279,12 @@ class ProtocolSuite(common.Suite):
             return [(f"protocol:exception:{case['ens']}:{obs['exception']}", obs["message"] + obs.get("trace", "")[-500:])]
         out = []
         ens = case["ens"]
-        order = user_order(case)
         for entry in obs["setup_log"] + obs["to_dict_log"]:
             if "OFF-PROTOCOL" in entry[2]:
                 out.append((f"protocol:off-protocol-access:{ens}:{entry[3]}", f"setup/to_dict: {entry}"))
         for k, (tr, t) in enumerate(zip(case["trials"], obs["trials"])):
             e = next(x for x in case["entries"] if x["name"] == tr["name"])
+            order = user_order(case, k)
             log = t["log"]
             for entry in log:
                 if "OFF-PROTOCOL" in entry[2]:
@@ -352,9 +368,9 @@ class TraceTie(ProtocolSuite):
         obs = getattr(self, "_last", None)
         if not obs or "trials" not in obs:
             return []
-        order = user_order(case)
         lines = []
-        for tr, t in zip(case["trials"], obs["trials"]):
+        for kt, (tr, t) in enumerate(zip(case["trials"], obs["trials"])):
+            order = user_order(case, kt)
             e = next(x for x in case["entries"] if x["name"] == tr["name"])
             if e["kind"] != "user":
                 continue  # composites and real moves: covered by the oracle; the model line is for a single user move
